@@ -118,10 +118,13 @@ pub struct RunOpts {
     pub sync_check: bool,
     /// child mode only: SIGKILL the writer right after a successful flush/sync, then look at the directory
     pub kill_after_sync: bool,
+    /// C15: between two byte comparisons without an update in between the files must not change,
+    /// and read-only calls must not extend a file (`set_len` in the io-trace)
+    pub ro_check: bool,
 }
 impl Default for RunOpts {
     fn default() -> Self {
-        RunOpts { model: true, cmp_every: None, cmp_end: true, stop_first: true, op_budget_ms: 20_000, check_inv: false, decoder: false, child: false, sync_check: false, kill_after_sync: false }
+        RunOpts { model: true, cmp_every: None, cmp_end: true, stop_first: true, op_budget_ms: 20_000, check_inv: false, decoder: false, child: false, sync_check: false, kill_after_sync: false, ro_check: false }
     }
 }
 
@@ -236,6 +239,8 @@ pub fn run_seq(seq: &Seq, dir: &Path, driver: &mut Option<Driver>, opts: &RunOpt
     let mut prev_dec: BTreeMap<usize, crate::decoder::Decoded> = BTreeMap::new();
     let mut pending_sync: std::collections::BTreeSet<usize> = Default::default();
     let mut ever_opened: std::collections::BTreeSet<usize> = Default::default();
+    let mut last_hash: Option<Vec<(String, u64, u64)>> = None;
+    let mut updated_since_cmp = true;
 
     let mut all_ops: Vec<Op> = vec![Op::Map(0, seq.kt, seq.params)];
     all_ops.extend(seq.ops.iter().cloned());
@@ -459,6 +464,14 @@ pub fn run_seq(seq: &Seq, dir: &Path, driver: &mut Option<Driver>, opts: &RunOpt
         if changed {
             pending_sync.insert(cur);
         }
+        if op.is_update() {
+            updated_since_cmp = true;
+        } else if opts.ro_check && !updated_since_cmp && !matches!(op, Op::Cmp(_) | Op::Map(..) | Op::Reopen(_)) {
+            let tr = imp.take_trace();
+            if tr.split(',').any(|e| e.ends_with(":set_len")) {
+                diffs.push(Diff { idx, facet: "trace", op: op.text(), got: format!("io-trace [{}]", tr.chars().take(120).collect::<String>()), want: "no set_len (a read-only call must not extend a file)".into() });
+            }
+        }
         if let Op::Map(id, ..) = &op {
             if !ever_opened.contains(id) {
                 ever_opened.insert(*id);
@@ -554,6 +567,30 @@ pub fn run_seq(seq: &Seq, dir: &Path, driver: &mut Option<Driver>, opts: &RunOpt
                         if a != "htx=ok key=ok val=ok" {
                             diffs.push(Diff { idx, facet: "bytes", op: format!("cmp m{} after {}", id, op.text()), got: a, want: "htx=ok key=ok val=ok".into() });
                         }
+                    }
+                    if opts.ro_check {
+                        let mut h: Vec<(String, u64, u64)> = Vec::new();
+                        if let Ok(rd) = std::fs::read_dir(dir) {
+                            let mut names: Vec<_> = rd.flatten().map(|e| e.path()).collect();
+                            names.sort();
+                            for pth in names {
+                                let data = std::fs::read(&pth).unwrap_or_default();
+                                let mut x: u64 = 0xcbf29ce484222325;
+                                for b in &data {
+                                    x ^= *b as u64;
+                                    x = x.wrapping_mul(0x100000001b3);
+                                }
+                                h.push((pth.file_name().unwrap().to_string_lossy().to_string(), data.len() as u64, x));
+                            }
+                        }
+                        if let Some(prev) = &last_hash {
+                            if !updated_since_cmp && prev != &h {
+                                let which = prev.iter().zip(h.iter()).find(|(a, b)| a != b).map(|(a, b)| format!("{}: length {} -> {}", a.0, a.1, b.1)).unwrap_or_default();
+                                diffs.push(Diff { idx, facet: "ro-bytes", op: "files before / after a read-only session".into(), got: format!("changed ({})", which), want: "byte-for-byte identical".into() });
+                            }
+                        }
+                        last_hash = Some(h);
+                        updated_since_cmp = false;
                     }
                     if opts.decoder {
                         for (id, allowed) in model_maps.clone() {
